@@ -72,10 +72,14 @@ DyingTarget(e) ==
           /\ q[e.frames[1].qid].srv \in Dying THEN q[e.frames[1].qid].srv ELSE 0
   ELSE IF e.e = "sk" /\ e.op = "close" THEN
        IF e.fd \in DOMAIN fdi /\ fdi[e.fd].srv \in Dying THEN fdi[e.fd].srv ELSE 0
-  ELSE IF e.e = "sk" /\ ((e.op = "open" /\ e.tcp = 1) \/ (e.op = "connect" /\ e.fd \in DOMAIN fdi /\ fdi[e.fd].tcp)) THEN
-       \* a new connection is being opened for a query that was queued on a TCP connection of a dying server
-       LET qd == {id \in DOMAIN q : q[id].st = "tosend" /\ q[id].tcp /\ q[id].qsrv \in Dying} IN
-       IF qd # {} THEN q[CHOOSE id \in qd : TRUE].qsrv ELSE 0
+  ELSE IF e.e = "sk" /\ e.op = "open" THEN
+       \* a connection is being opened while only the list edit itself is in progress (no callback is running) and nothing
+       \* waits to be sent: it can only be for a query requeued from the dying server whose turn has come -- the first
+       \* in list order that has something assigned to it
+       LET busy == {d \in Dying : InflightOn(d) # {}}
+           first == {d \in busy : \A d2 \in busy : d2 = d \/ BeforeIn(srv, d, d2)}
+       IN IF nest = 1 /\ first # {} /\ \A id \in DOMAIN q : q[id].st = "tosend" => (q[id].tcp /\ q[id].qsrv # 0)
+          THEN CHOOSE d \in first : TRUE ELSE 0
   ELSE IF e.e = "cbb" THEN
        LET ids == {id \in DOMAIN q : q[id].t = e.t /\ ~q[id].probe}
            onD == {id \in ids : \/ (q[id].st = "inflight" /\ q[id].srv \in Dying)
